@@ -58,6 +58,12 @@ impl Distribution for Gamma {
     /// Uses the algorithm from Marsaglia and Tsang 2000. Applies the squeeze
     /// method and has nearly constant average time for `alpha >= 1`.
     fn sample(&self) -> f64 {
+        if self.alpha < 1. {
+            // the Marsaglia-Tsang method below needs alpha >= 1; for smaller shapes use
+            // Gamma(alpha) = Gamma(alpha + 1) * U^(1/alpha)
+            let boosted = Gamma::new(self.alpha + 1., self.beta).sample();
+            return boosted * self.uniform_gen.sample().powf(1. / self.alpha);
+        }
         let d = self.alpha - 1. / 3.;
         loop {
             let (x, v) = loop {
